@@ -160,6 +160,7 @@ fn main() {
         "verdicts" => sema::verdicts(&args),
         "names" => names::run(&args),
         "codec" => codec::run(&args),
+        "twin-gen" => codec::run_twin_gen(&args),
         "pkg" => pkgcodec::run_pkg(&args),
         "damage" => pkgcodec::run_damage(&args),
         "semadump" => {
